@@ -283,6 +283,33 @@ def gen_plan(seed, tier="quick", variant=None):
         ops.append({"op": "stop", "on": [what, k], "delay": rng.choice([0.01, 0.03])})
         ops.append({"t": round(1.0 + rng.random(), 6), "op": "start", "start": rng.choice(["latest", "latest", "num"]), "start_rel": 0})
         proc = []
+    if cons["group"] and rng.random() < 0.04:
+        # directed shape: stop() while a manual commit is in flight; the cancelled waiter's callback commits again or shuts
+        # down (inside stop(), while the cancelled request is still registered), and the application restarts the
+        # consumer from the start Deferred's callback
+        cons.update(every_n=0, every_ms=0)
+        cfg["precommit"] = None
+        cfg["start"] = "earliest"
+        ops = [o for o in ops if o["op"] == "append"][:1]
+        ops += [{"t": 0.05, "op": "commit"}, {"op": "stop", "on": ["commit", 0], "delay": 0.0005},
+                {"op": rng.choice(["shutdown", "commit"]), "on": ["commit_result", 0]},
+                {"op": "start", "on": ["start_result", 0], "start": "earliest", "start_rel": 0}]
+        faults = [{"api": 8, "node": None, "nth": 0, "act": "delay", "delay": 0.2}]
+        proc = []
+    if rng.random() < 0.05:
+        # directed shape: stop() (or shutdown()) from inside the processor while later blocks of the same fetch are queued,
+        # and a restart from inside the start Deferred's callback - i.e. inside that stop(), inside that processor call
+        cons.update(group=True, every_n=1, every_ms=0, buffer_size=65536, max_buffer_size=None)
+        cfg["precommit"] = None
+        cfg["start"] = "earliest"
+        log[:] = [{"kind": rng.choice(["plain", "wrapper"]), "magic": rng.choice([0, 1]), "n": rng.randint(6, 12), "gap": 0, "size": 5, "nullkey": False,
+                   "nullval": False, "nested": False, "holes": False}]
+        k = rng.randint(1, 3)
+        proc = [{"n": k, "mode": rng.choice(["sync", "async", "async"]), "delay": rng.choice([0.0, 0.05])}]
+        ops = [o for o in ops if o["op"] == "append"][:1]
+        ops += [{"op": rng.choice(["stop", "stop", "shutdown"]), "on": ["proc", k, "during"]},
+                {"op": "start", "on": ["start_result", 0], "start": rng.choice(["num", "earliest"]), "start_rel": rng.randint(0, 3)}]
+        faults = []
     if rng.random() < 0.15:
         # ... and restarting the consumer from inside the start Deferred's callback (fired by stop(), or by a failure)
         ops.append({"op": "start", "on": ["start_result", rng.choice([0, 0, 1])], "start": rng.choice(["num", "earliest", "committed" if cons["group"] else "latest"]),
@@ -761,7 +788,14 @@ def _run(w, plan):
                 s["shutdown_from_processor"] = inc.in_proc is not None
                 s["shutdown_seq"] = len(sim.log)
                 s["pending_at_shutdown"] = inc.pending
-                d = c.shutdown()
+                try:
+                    d = c.shutdown()
+                except OperationInProgress:
+                    # shutdown() from a commit waiter's cancellation callback inside stop(): refused by raising, like commit()
+                    res.probe("shutdown_refused_by_raising")
+                    sim.record("shutdown_refused")
+                    s["shutdown_called"] = False
+                    return
                 sw = watch(d, "shutdown#%d" % inc.n, sim, lambda wd, s=s, inc=inc: on_shutdown_fire(inc, s, wd), keep_failure=True)
                 s["shutdown_w"] = sw
         elif kind == "commit":
@@ -1107,6 +1141,14 @@ def _oracles(w, plan, res, incs, part, state, corrupted, live_tail):
             restarts = any(s["start_kind"] != "committed" for inc in incs for s in inc.sessions[1:]) or \
                 any(s["start_kind"] == "latest" for inc in incs for s in inc.sessions)
             oor = bool(oor_events)
+            # a start from the committed position that found nothing committed falls to the reset policy, which may skip
+            for e in offfetch:
+                try:
+                    p_ = e["resp_body"]["topics"][0]["partitions"][0]
+                    if e.get("delivered_seq") is not None and p_["error"] == 0 and p_["offset"] < 0:
+                        restarts = True
+                except (KeyError, IndexError, TypeError):
+                    pass
             if missing and not restarts and not oor:
                 res.violate("C03", "C03:committed-past-unprocessed-messages", "committed %d but offsets %r were never successfully processed" % (
                     final[0], missing[:5]))
